@@ -261,17 +261,19 @@ Definition set_ids (evs : list ev) : list string :=
 Definition no_fail (evs : list ev) : bool :=
   forallb (fun e => match e with EFail _ => false | _ => true end) evs.
 
-(* every reference is preceded by the END of the definition it names *)
-Fixpoint refs_resolve (evs : list ev) (seen : list string) : bool :=
+(* every reference is preceded by the END of the definition it names, and every END by its START
+   ([seen] = completed definitions, [chk] = started definitions) *)
+Fixpoint refs_resolve (evs : list ev) (seen chk : list string) : bool :=
   match evs with
   | [] => true
-  | ERef x :: r => mem x seen && refs_resolve r seen
-  | ESet i :: r => refs_resolve r (i :: seen)
-  | _ :: r => refs_resolve r seen
+  | ERef x :: r => mem x seen && refs_resolve r seen chk
+  | ESet i :: r => mem i chk && refs_resolve r (i :: seen) chk
+  | EChk i :: r => refs_resolve r seen (i :: chk)
+  | EFail _ :: r => refs_resolve r seen chk
   end.
 
 Definition wf_events (evs : list ev) : bool :=
-  no_fail evs && nodupb (chk_ids evs) && refs_resolve evs [].
+  no_fail evs && nodupb (chk_ids evs) && refs_resolve evs [] [].
 
 (* all identified objects anywhere in the term *)
 Fixpoint all_ids (j : json) : list string :=
